@@ -9,7 +9,7 @@ From CM Require Import Lib.Str Lib.Wire Lib.CleanSyntax Gen.Consts Clean.Model C
 Open Scope Z_scope.
 
 Record runrec := RunRec {
-  rr_tid : nat; rr_opts : opts; rr_faults : list nat; rr_cancel : option nat;
+  rr_tid : nat; rr_opts : opts; rr_faults : list nat; rr_efaults : list nat; rr_cancel : option nat;
   rr_t0 : Z; rr_t1 : Z; rr_res : N;
   rr_fops : list (nat * fop)   (* foreign operations (another actor, no lock) just before call number n of the run *)
 }.
@@ -43,7 +43,7 @@ Fixpoint list_eqb {A} (f : A -> A -> bool) (a b : list A) : bool :=
   end.
 
 (** *** the model on a case *)
-Definition env_of (c : case) (r : runrec) : env := Env (rr_faults r) (rr_cancel r) (c_lfe c).
+Definition env_of (c : case) (r : runrec) : env := Env (rr_faults r) (rr_efaults r) (rr_cancel r) (c_lfe c).
 
 (** replay the runs (clock = constantly t0 of each run: the harness skips cases whose outcome depends on
     where in [t0,t1] a reading fell); [None] as soon as a result or a call sequence differs *)
@@ -104,7 +104,7 @@ Definition diff_ok (c : case) (k : key) : bool :=
        match as_clean cl with
        | Some (ts, i) =>
            existsb (fun r => (rr_t0 r <=? ts) && (ts <=? rr_t1 r) && seqb i (inst (rr_opts r)) &&
-                             stored_ok (proj (rr_tid r) (c_trace c))) (c_runs c)
+                             stored_any (proj (rr_tid r) (c_trace c))) (c_runs c)
        | None => false
        end
    end) &&
@@ -146,7 +146,7 @@ Definition diff_ok_f (c : case) (sf : store) (k : key) : bool :=
        match as_clean cl with
        | Some (ts, i) =>
            existsb (fun r => (rr_t0 r <=? ts) && (ts <=? rr_t1 r) && seqb i (inst (rr_opts r)) &&
-                             stored_ok (proj (rr_tid r) (c_trace c))) (c_runs c)
+                             stored_any (proj (rr_tid r) (c_trace c))) (c_runs c)
        | None => false
        end
    end) &&
@@ -256,14 +256,14 @@ Definition get_store (tbl : list str) (vals : list (bool * cls)) : dec store :=
 Definition get_opts : dec opts :=
   i <- get_z ;; a <- get_bool ;; b <- get_bool ;; g <- get_z ;; n <- get_pstr ;; ret (Opts i a b g n).
 Definition get_run : dec runrec :=
-  t <- get_nat ;; o <- get_opts ;; f <- get_list get_nat ;; c <- get_opt get_nat ;;
-  t0 <- get_z ;; t1 <- get_z ;; r <- get_n ;; ret (RunRec t o f c t0 t1 r []).
+  t <- get_nat ;; o <- get_opts ;; f <- get_list get_nat ;; ef <- get_list get_nat ;; c <- get_opt get_nat ;;
+  t0 <- get_z ;; t1 <- get_z ;; r <- get_n ;; ret (RunRec t o f ef c t0 t1 r []).
 (** foreign operation: call index, kind (0 Store, 1 Delete), key, node (Store only) *)
 Definition get_fop (tbl : list str) (vals : list (bool * cls)) : dec (nat * fop) :=
   i <- get_nat ;; kd <- get_z ;; ky <- get_key tbl ;;
   if kd =? 0 then n <- get_node vals ;; ret (i, FPut ky n) else ret (i, FDel ky).
 Definition with_fops (r : runrec) (fs : list (nat * fop)) : runrec :=
-  RunRec (rr_tid r) (rr_opts r) (rr_faults r) (rr_cancel r) (rr_t0 r) (rr_t1 r) (rr_res r) fs.
+  RunRec (rr_tid r) (rr_opts r) (rr_faults r) (rr_efaults r) (rr_cancel r) (rr_t0 r) (rr_t1 r) (rr_res r) fs.
 Definition get_run_f (tbl : list str) (vals : list (bool * cls)) : dec runrec :=
   r <- get_run ;; fs <- get_list (get_fop tbl vals) ;; ret (with_fops r fs).
 Definition opk_of (n : Z) : option opk :=
